@@ -244,6 +244,7 @@ var urlPaths = []string{
 	"/kapacitor/v1/tasks", "/kapacitor/v1/tasks/x", "/kapacitor/v1/tasks/x/y", "/kapacitor/v1/tasks/", "/kapacitor/v1/tasksx",
 	"/kapacitor/v1/write", "/write", "/kapacitor/v1/ping", "/kapacitor/v1/nothing", "/", "/kapacitor/v1",
 	"/kapacitor/v1preview/tasks", "/kapacitor/v1preview/tasks/x", "/kapacitor/v1preview/write", "/kapacitor/v1preview/ping", "/kapacitor/v1preview/",
+	"/kapacitor/v1..", "/kapacitor/v1../database/x",
 	"/kapacitor/v1/:routes", "/kapacitor/v1/debug/vars", "/kapacitor/v1/debug/pprof/", "/kapacitor/v1/debug/pprof/cmdline",
 	"/kapacitor/v1/debug/pprof/symbol", "/kapacitor/v1/debug/pprof/heap", "/kapacitor/v1preview/debug/vars", "/kapacitor/v1/debug",
 	// path tricks: the mux redirects them, nothing may be served
@@ -363,9 +364,9 @@ func genHTTP(r *kit.Rand) []string {
 		} else {
 			m = kit.Pick(r, httpMethods)
 		}
-		p := kit.Pick(r, urlPaths[:24])
+		p := kit.Pick(r, urlPaths[:26])
 		if r.Chance(1, 6) {
-			p = kit.Pick(r, urlPaths[24:])
+			p = kit.Pick(r, urlPaths[26:])
 		}
 		if r.Chance(1, 3) {
 			p = kit.Pick(r, []string{"/kapacitor/v1/write", "/write", "/kapacitor/v1preview/write"})
